@@ -119,13 +119,16 @@ class Controller(object):
         if s in ('INSERT', 'UPDATE', 'DELETE'):
             r.cur_writes += 1
         if self.stmt_hook is not None:
-            self.stmt_hook(r, conn, cursor, statement)
+            self.stmt_hook(r, conn, cursor, statement, parameters)
 
     # -- controller -----------------------------------------------------------
     def _thread_main(self, r):
         self.by_thread[threading.get_ident()] = r
         try:
-            r.result = self.app.call(*r.call)
+            if callable(r.call):
+                r.result = r.call()
+            else:
+                r.result = self.app.call(*r.call)
         except BaseException as ex:   # crash injection ends up here
             r.error = ex
         finally:
